@@ -1,6 +1,7 @@
 (** Correspondence + property judges for the log-query engine (C01, C06, C07, C08, C19). *)
 From LogQLV Require Export Base.Bytes Base.FloatX Base.LMap Base.Regex Base.Units Model.Tables Model.KeyToLabel Model.Stages Model.Engine.
 From LogQLV Require Import Run.C20.
+From LogQLV Require Export Spec.LogSpec.
 
 (** one evaluation of the case: a query under a capability set and a limit, with what the implementation returned *)
 Record evaluation := mkev {
@@ -23,7 +24,10 @@ Inductive relation :=
 | RelPrefixOf (i j : nat) (n : Z)    (* i = the first min(n, |j|) entries of j in time order (unique timestamps) *)
 | RelHasLabel (i : nat) (ts : Z) (k v : bytes)      (* the entry with timestamp ts carries label k = v *)
 | RelNoLabel (i : nat) (ts : Z) (k : bytes)         (* the entry with timestamp ts has no label k *)
-| RelLine (i : nat) (ts : Z) (l : bytes).           (* the entry with timestamp ts has line l *)
+| RelLine (i : nat) (ts : Z) (l : bytes)            (* the entry with timestamp ts has line l *)
+| RelSpec (i : nat)                                 (* the result is exactly what Spec.LogSpec.spec_select says (distinct-free, no limit) *)
+| RelLabels (i : nat) (ts : Z) (ls : list (bytes * bytes))   (* the entry with timestamp ts carries exactly these labels (details masked) *)
+| RelError (i : nat).                               (* the evaluation is rejected with an error *)
 
 Record case := mk {
   orc : oracles;
@@ -176,6 +180,24 @@ Definition rel_ok (c : case) (r : relation) : bool :=
       | Some a => match find_ts a ts with [e] => bytes_eqb (e_line e) l | _ => false end
       | None => false
       end
+  | RelSpec i =>
+      match nth_error (evals c) i with
+      | Some e =>
+          if distinct_free (ev_query e) && (ev_limit e <=? 0) then
+            match spec_select (orc c) (ev_query e) (recs c), ev_obs e with
+            | Some es, Some ss => list_eqb entry_eqb (canon_model es) (canon_obs ss)
+            | Some _, None => false
+            | None, _ => true
+            end
+          else true
+      | None => false
+      end
+  | RelLabels i ts ls =>
+      match obs_at c i with
+      | Some a => match find_ts a ts with [e] => lmap_eqb (e_set e) (mask_details (lmap_of_list ls)) | _ => false end
+      | None => false
+      end
+  | RelError i => match nth_error (evals c) i with Some e => match ev_obs e with None => true | Some _ => false end | None => false end
   end.
 
 Definition judge (c : case) : bool * bool * Z :=
